@@ -266,6 +266,44 @@ static void p_musig_verify_side(ProbeEnv &e) {
     }
     unsigned char sig[64];
     C(secp256k1_musig_partial_sig_agg, secp256k1_musig_partial_sig_agg(CTX, sig, &sess, psp, 3), O(sig, 64));
+    // adaptor side, from the serialised fixtures of the adaptor session
+    secp256k1_musig_session sa; int par = -1; unsigned char fin[64], t[32];
+    C(secp256k1_musig_nonce_process, secp256k1_musig_nonce_process(CTX, &sa, &an2, F.msg, &cache, &F.pk[3]));
+    C(secp256k1_musig_nonce_parity, secp256k1_musig_nonce_parity(CTX, &par, &sa), O(&par, sizeof par));
+    C(secp256k1_musig_adapt, secp256k1_musig_adapt(CTX, fin, F.mu_presig, F.sk[3], par & 1), O(fin, 64));
+    C(secp256k1_musig_extract_adaptor, secp256k1_musig_extract_adaptor(CTX, t, fin, F.mu_presig, par & 1), O(t, 32));
+    secp256k1_xonly_pubkey xq;
+    C(secp256k1_xonly_pubkey_from_pubkey, secp256k1_xonly_pubkey_from_pubkey(CTX, &xq, NULL, &tw));
+    C(secp256k1_schnorrsig_verify, secp256k1_schnorrsig_verify(CTX, fin, F.msg, 32, &xq));
+}
+// reading a keypair object (no secret-key *operation*): accepted by every context
+static void p_keypair_read(ProbeEnv &e) {
+    unsigned char sk[32], xb[32]; secp256k1_pubkey pk; secp256k1_xonly_pubkey x; int par = -1;
+    C(secp256k1_keypair_sec, secp256k1_keypair_sec(CTX, sk, &F.kp[3]), O(sk, 32));
+    C(secp256k1_keypair_pub, secp256k1_keypair_pub(CTX, &pk, &F.kp[3])); ser_pk(e, &pk);
+    C(secp256k1_keypair_xonly_pub, secp256k1_keypair_xonly_pub(CTX, &x, &par, &F.kp[3]), O(&par, sizeof par));
+    C(secp256k1_xonly_pubkey_serialize, secp256k1_xonly_pubkey_serialize(CTX, xb, &x), O(xb, 32));
+}
+// callbacks that fail: the failure path through the shared / static / any context
+static int failing_nonce(unsigned char *, const unsigned char *, const unsigned char *, const unsigned char *, void *, unsigned int) { g_seamc.nonce_calls++; fiber_yield_point(-6); return 0; }
+static int failing_nonce_h(unsigned char *, const unsigned char *, size_t, const unsigned char *, const unsigned char *, const unsigned char *, size_t, void *) { g_seamc.nonce_calls++; fiber_yield_point(-6); return 0; }
+static int failing_nonce_a(unsigned char *, const unsigned char *, const unsigned char *, const unsigned char *, const unsigned char *, size_t, void *) { g_seamc.nonce_calls++; fiber_yield_point(-6); return 0; }
+static int failing_ecdh_hash(unsigned char *, const unsigned char *, const unsigned char *, void *) { g_seamc.hash_calls++; fiber_yield_point(-7); return 0; }
+static int failing_xdh_hash(unsigned char *, const unsigned char *, const unsigned char *, const unsigned char *, void *) { g_seamc.hash_calls++; fiber_yield_point(-7); return 0; }
+static void p_failing_callbacks(ProbeEnv &e) {
+    unsigned char o[32];
+    C(secp256k1_ecdh, secp256k1_ecdh(CTX, o, &F.pk[1], F.sk[0], failing_ecdh_hash, NULL));
+    C(secp256k1_ellswift_xdh, secp256k1_ellswift_xdh(CTX, o, F.ell[0], F.ell[1], F.sk[0], 0, failing_xdh_hash, NULL));
+    secp256k1_ecdsa_signature s; unsigned char b[64];
+    C(secp256k1_ecdsa_sign, secp256k1_ecdsa_sign(CTX, &s, F.msg, F.sk[0], failing_nonce, NULL));
+    C(secp256k1_ecdsa_signature_serialize_compact, secp256k1_ecdsa_signature_serialize_compact(CTX, b, &s), O(b, 64));
+    secp256k1_ecdsa_recoverable_signature rs; int recid = -1;
+    C(secp256k1_ecdsa_sign_recoverable, secp256k1_ecdsa_sign_recoverable(CTX, &rs, F.msg, F.sk[0], failing_nonce, NULL));
+    C(secp256k1_ecdsa_recoverable_signature_serialize_compact, secp256k1_ecdsa_recoverable_signature_serialize_compact(CTX, b, &recid, &rs), O(b, 64), O(&recid, sizeof recid));
+    unsigned char sig[64]; secp256k1_schnorrsig_extraparams ep = SECP256K1_SCHNORRSIG_EXTRAPARAMS_INIT; ep.noncefp = failing_nonce_h;
+    C(secp256k1_schnorrsig_sign_custom, secp256k1_schnorrsig_sign_custom(CTX, sig, F.longmsg, 40, &F.kp[0], &ep), O(sig, 64));
+    unsigned char a[162], skc[32]; memcpy(skc, F.sk[0], 32);
+    C(secp256k1_ecdsa_adaptor_encrypt, secp256k1_ecdsa_adaptor_encrypt(CTX, a, skc, &F.pk[1], F.msg, failing_nonce_a, NULL), O(a, 162));
 }
 static void p_musig_counter(ProbeEnv &e) {
     secp256k1_musig_secnonce sn; secp256k1_musig_pubnonce pn; unsigned char b66[66];
@@ -354,11 +392,11 @@ static void p_rangeproof_sign(ProbeEnv &e) {
 }
 static void p_rangeproof_verify(ProbeEnv &e) {
     uint64_t mn = 0, mx = 0; int ex = 0, mant = 0;
-    C(secp256k1_rangeproof_verify, secp256k1_rangeproof_verify(CTX, &mn, &mx, &F.commit[1], F.rp_proof, F.rp_len, F.rp_extra, sizeof F.rp_extra, &F.gen), O(&mn, 8), O(&mx, 8));
-    C(secp256k1_rangeproof_verify, secp256k1_rangeproof_verify(CTX, &mn, &mx, &F.commit[2], F.rp_proof, F.rp_len, F.rp_extra, sizeof F.rp_extra, &F.gen));
     C(secp256k1_rangeproof_info, secp256k1_rangeproof_info(CTX, &ex, &mant, &mn, &mx, F.rp_proof, F.rp_len), O(&ex, sizeof ex), O(&mant, sizeof mant), O(&mn, 8), O(&mx, 8));
     g_cur_api_id = api_id("secp256k1_rangeproof_max_size");
     { int64_t i0 = g_mon.illegal_here(); size_t ms = L(secp256k1_rangeproof_max_size(CTX, 0xffffffffULL, 0)); if (!e.call("secp256k1_rangeproof_max_size", 1, i0, {O(&ms, sizeof ms)})) return; }
+    C(secp256k1_rangeproof_verify, secp256k1_rangeproof_verify(CTX, &mn, &mx, &F.commit[1], F.rp_proof, F.rp_len, F.rp_extra, sizeof F.rp_extra, &F.gen), O(&mn, 8), O(&mx, 8));
+    C(secp256k1_rangeproof_verify, secp256k1_rangeproof_verify(CTX, &mn, &mx, &F.commit[2], F.rp_proof, F.rp_len, F.rp_extra, sizeof F.rp_extra, &F.gen));
 }
 static void p_rangeproof_rewind(ProbeEnv &e) {
     unsigned char bo[32], mo[4096]; uint64_t vo = 0, mn = 0, mx = 0; size_t ol = sizeof mo;
@@ -486,7 +524,7 @@ const std::vector<Probe> &probe_table() {
         {"recoverable_sign", p_recoverable}, {"recover", p_recover}, {"keypair", p_keypair}, {"keypair_tweak", p_keypair_tweak}, {"xonly", p_xonly},
         {"schnorr_sign", p_schnorr_sign}, {"schnorr_sign_custom", p_schnorr_sign_custom}, {"schnorr_verify", p_schnorr_verify}, {"tagged_sha256", p_tagged},
         {"ecdh", p_ecdh}, {"ellswift_create", p_ellswift_create}, {"ellswift_codec", p_ellswift_codec}, {"ellswift_xdh", p_ellswift_xdh},
-        {"musig", p_musig}, {"musig_adaptor", p_musig_adaptor}, {"musig_verify_side", p_musig_verify_side}, {"musig_counter", p_musig_counter},
+        {"musig", p_musig}, {"musig_adaptor", p_musig_adaptor}, {"musig_verify_side", p_musig_verify_side}, {"keypair_read", p_keypair_read}, {"failing_callbacks", p_failing_callbacks}, {"musig_counter", p_musig_counter},
         {"adaptor_encrypt", p_adaptor_encrypt}, {"adaptor_rest", p_adaptor_rest}, {"s2c_sign", p_s2c_sign}, {"s2c_verify", p_s2c_verify},
         {"anti_exfil", p_anti_exfil}, {"anti_exfil_verify", p_anti_exfil_verify}, {"generator", p_generator}, {"generator_blinded", p_generator_blinded},
         {"pedersen_commit", p_pedersen_commit}, {"pedersen_rest", p_pedersen_rest}, {"rangeproof_sign", p_rangeproof_sign}, {"rangeproof_verify", p_rangeproof_verify},
